@@ -384,6 +384,19 @@ def _safe_name(sig):
 
 
 def main(argv=None):
+    """Run a check; whatever happens, sweep the scratch directories of this run's worker processes afterwards."""
+    import glob
+    import shutil
+
+    os.environ["VP_RUN_ID"] = str(os.getpid())
+    try:
+        return _main(argv)
+    finally:
+        for d in glob.glob(os.path.join(HERE, ".scratch", "p%d_*" % os.getpid())):
+            shutil.rmtree(d, ignore_errors=True)
+
+
+def _main(argv=None):
     ap = argparse.ArgumentParser()
     ap.add_argument("property")
     ap.add_argument("--tier", default=os.environ.get("VERIF_TIER", "quick"), choices=["quick", "thorough"])
